@@ -226,4 +226,286 @@ theorem blocked_once_stream (id : Nat) {s : State} (h : Reach s) (ops : List Op)
     (hn : ∀ op ∈ ops, op ≠ .reset) : (streamBlockedReports id s ops).Pairwise (· < ·) :=
   (stream_blocked_aux id h ops hv hn).2
 
+/-! ## 3. the receiver enforces exactly the limits it advertised -/
+
+/-- final-size inconsistency of a STREAM/RESET_STREAM offset w.r.t. what the stream knows -/
+def finalSizeViolation (st : Stream) (off : Int) (fin : Bool) : Prop :=
+  (st.receivedFinalOffset = true ∧ ((fin = true ∧ off ≠ st.base.highestReceived) ∨ off > st.base.highestReceived)) ∨
+  (fin = true ∧ off < st.base.highestReceived)
+
+/-- the frame carries the stream's highest offset beyond a limit: the stream's own receive window,
+    or — counting the increment at connection level — the connection's -/
+def beyondLimits (st : Stream) (c : Base) (off : Int) : Prop :=
+  off > st.base.highestReceived ∧
+    (off > st.base.receiveWindow ∨ c.highestReceived + (off - st.base.highestReceived) > c.receiveWindow)
+
+/-- the outcome of `UpdateHighestReceived` in closed form (same case order as the Go code) -/
+def recvOutcome (st : Stream) (c : Base) (off : Int) (fin : Bool) : RecvOut :=
+  if st.receivedFinalOffset = true ∧ fin = true ∧ off ≠ st.base.highestReceived then .finalSize
+  else if st.receivedFinalOffset = true ∧ off > st.base.highestReceived then .finalSize
+  else if off = st.base.highestReceived then .ok
+  else if off < st.base.highestReceived then (if fin = true then .finalSize else .ok)
+  else if off > st.base.receiveWindow then .flowControl
+  else if c.highestReceived + (off - st.base.highestReceived) > c.receiveWindow then .flowControl
+  else .ok
+
+theorem recv_outcome (st : Stream) (c : Base) (off : Int) (fin : Bool) (now : Int) :
+    (st.updateHighestReceived c off fin now).2.2.1 = recvOutcome st c off fin := by
+  unfold Stream.updateHighestReceived Conn.incrementHighestReceived recvOutcome Base.checkFlowControlViolation
+  simp only [cmp, Uquic.Gen.Flowcontrol.violationCmpOp]
+  repeat' split
+  all_goals (simp [Base.startNewAutoTuningEpoch] at *)
+  all_goals (try omega)
+
+/-- **receiver_exact.** `UpdateHighestReceived` answers FLOW_CONTROL_ERROR iff the new highest
+    offset exceeds the stream's receive window or makes the connection total exceed the connection's
+    receive window (and the offset is consistent with the final size); it answers FINAL_SIZE_ERROR iff
+    the offset contradicts the final size; otherwise it accepts.  In particular all data within the
+    limits is accepted and the first byte beyond them is refused.  (`receiveWindow` is the last
+    value announced, see `advertised_monotone_and_honest`; on an open connection
+    `c.highestReceived` is the sum of the streams' highest offsets, see `credit_conserved`.) -/
+theorem receiver_exact (st : Stream) (c : Base) (off : Int) (fin : Bool) (now : Int) :
+    let r := (st.updateHighestReceived c off fin now).2.2.1
+    (r = .finalSize ↔ finalSizeViolation st off fin) ∧
+    (r = .flowControl ↔ ¬ finalSizeViolation st off fin ∧ beyondLimits st c off) ∧
+    (r = .ok ↔ ¬ finalSizeViolation st off fin ∧ ¬ beyondLimits st c off) := by
+  simp only [recv_outcome]
+  unfold recvOutcome finalSizeViolation beyondLimits
+  cases hf : st.receivedFinalOffset <;> cases fin <;> simp only [Bool.false_eq_true, false_and, and_false, false_or, or_false, true_and, if_false, if_true]
+  all_goals (repeat' split)
+  all_goals (simp at *)
+  all_goals (try omega)
+
+/-- the same statement for the operation on a connection state -/
+theorem receiver_exact_step {s : State} {id : Nat} {st : Stream} (hs : s.streams[id]? = some st)
+    (off : Int) (fin : Bool) (now : Int) :
+    ∃ r, (step s (.recv id off fin now)).2 = .recv r ∧
+      (r = .finalSize ↔ finalSizeViolation st off fin) ∧
+      (r = .flowControl ↔ ¬ finalSizeViolation st off fin ∧ beyondLimits st s.conn off) ∧
+      (r = .ok ↔ ¬ finalSizeViolation st off fin ∧ ¬ beyondLimits st s.conn off) := by
+  refine ⟨(st.updateHighestReceived s.conn off fin now).2.2.1, ?_, receiver_exact st s.conn off fin now⟩
+  simp only [step, stepT, hs]
+
+/-! ## 4. advertised limits: monotone, honest, and the ones enforced -/
+
+/-- **advertised_monotone_and_honest (stream).** For every operation the stream's enforced limit
+    `receiveWindow` never decreases, and it moves only in the stream's own `GetWindowUpdate`.  There,
+    the answer `v` is either the new enforced limit and equals `bytesRead + receiveWindowSize`
+    (consumed bytes plus the current window), or it is 0 and the limit is unchanged. -/
+theorem advertised_monotone_and_honest {s : State} (h : Reach s) (op : Op) (hp : Pre s op) (hr : op ≠ .reset)
+    {id : Nat} {st : Stream} (hs : s.streams[id]? = some st) :
+    ∃ st', (step s op).1.streams[id]? = some st' ∧
+      st.base.receiveWindow ≤ st'.base.receiveWindow ∧
+      ((∀ now allow, op ≠ .supd id now allow) → st'.base.receiveWindow = st.base.receiveWindow) ∧
+      (∀ now allow v calls, op = .supd id now allow → (step s op).2 = .upd v calls →
+        (v = st'.base.receiveWindow ∧ v = st'.base.bytesRead + st'.base.receiveWindowSize ∧
+          st'.base.bytesRead = st.base.bytesRead) ∨
+        (v = 0 ∧ st'.base.receiveWindow = st.base.receiveWindow)) := by
+  have hno : (step s op).2 ≠ .resetOk := fun e => hr (resetOk_only_reset e)
+  obtain ⟨st', h1, rel⟩ := stream_step op h.inv hp hs hno
+  refine ⟨st', h1, rel.recv.rw, rel.rwFrame, ?_⟩
+  intro now allow v calls hop hout
+  subst hop
+  have hlt : id < s.streams.length := by
+    rcases Nat.lt_or_ge id s.streams.length with hh | hh
+    · exact hh
+    · rw [List.getElem?_eq_none hh] at hs; cases hs
+  have sp := supd_rel st s.conn now s.rtt (s.allowOf allow)
+  simp only [] at sp
+  obtain ⟨sp1, _, _⟩ := sp
+  simp only [step, stepT, hs] at h1 hout
+  split at hout
+  · cases hout
+  · rename_i hnp
+    simp only [Out.upd.injEq] at hout
+    obtain ⟨hv, _⟩ := hout
+    split at h1
+    · rename_i hpp; exact absurd hpp hnp
+    · simp only [] at h1
+      rw [List.getElem?_set_self hlt] at h1
+      cases h1
+      subst hv
+      rcases sp1 with u | ⟨hpanic, _⟩ | ⟨e, e0⟩
+      · rcases u.rw with ⟨e1, e2⟩ | ⟨e1, e2⟩
+        · exact Or.inr ⟨e1, e2⟩
+        · exact Or.inl ⟨e1, e1.trans e2, u.br⟩
+      · exact absurd hpanic hnp
+      · exact Or.inr ⟨e0, by rw [e]⟩
+
+/-- **advertised_monotone_and_honest (connection).** -/
+theorem advertised_monotone_and_honest_conn {s : State} (h : Reach s) (op : Op) (hp : Pre s op) :
+    s.conn.receiveWindow ≤ (step s op).1.conn.receiveWindow ∧
+    ((∀ now allow, op ≠ .cupd now allow) → (step s op).1.conn.receiveWindow = s.conn.receiveWindow) ∧
+    (∀ now allow v calls, op = .cupd now allow → (step s op).2 = .upd v calls →
+      (v = (step s op).1.conn.receiveWindow ∧
+        v = (step s op).1.conn.bytesRead + (step s op).1.conn.receiveWindowSize ∧
+        (step s op).1.conn.bytesRead = s.conn.bytesRead) ∨
+      (v = 0 ∧ (step s op).1.conn.receiveWindow = s.conn.receiveWindow)) := by
+  have c := conn_step op h.inv hp
+  refine ⟨c.recv.rw, c.rwFrame, ?_⟩
+  intro now allow v calls hop hout
+  subst hop
+  have u := getWindowUpdate_rel s.conn now s.rtt (s.allowOf allow)
+  simp only [step, stepT] at hout ⊢
+  split at hout
+  · cases hout
+  · rename_i hnp
+    simp only [Out.upd.injEq] at hout
+    obtain ⟨hv, _⟩ := hout
+    subst hv
+    simp only [hnp]
+    rcases u.rw with ⟨e1, e2⟩ | ⟨e1, e2⟩
+    · exact Or.inr ⟨e1, e2⟩
+    · exact Or.inl ⟨e1, e1.trans e2, u.br⟩
+
+/-! ## 5. the window size only grows, and only up to its maximum -/
+
+/-- **window_size_bounded.** For every operation and every controller: `receiveWindowSize` never
+    shrinks, never exceeds the larger of its previous value and `maxReceiveWindowSize`, and the
+    maximum itself never changes — whatever the times, RTTs and callback answers are. -/
+theorem window_size_bounded {s : State} (h : Reach s) (op : Op) (hp : Pre s op) :
+    (s.conn.receiveWindowSize ≤ (step s op).1.conn.receiveWindowSize ∧
+     (step s op).1.conn.receiveWindowSize ≤ max s.conn.receiveWindowSize s.conn.maxReceiveWindowSize ∧
+     (step s op).1.conn.maxReceiveWindowSize = s.conn.maxReceiveWindowSize) ∧
+    (op ≠ .reset → ∀ (id : Nat) (st : Stream), s.streams[id]? = some st → ∃ st' : Stream, (step s op).1.streams[id]? = some st' ∧
+      st.base.receiveWindowSize ≤ st'.base.receiveWindowSize ∧
+      st'.base.receiveWindowSize ≤ max st.base.receiveWindowSize st.base.maxReceiveWindowSize ∧
+      st'.base.maxReceiveWindowSize = st.base.maxReceiveWindowSize) := by
+  have c := conn_step op h.inv hp
+  refine ⟨⟨c.recv.rws, c.recv.hi, c.recv.mx⟩, ?_⟩
+  intro hr id st hs
+  have hno : (step s op).2 ≠ .resetOk := fun e => hr (resetOk_only_reset e)
+  obtain ⟨st', h1, rel⟩ := stream_step op h.inv hp hs hno
+  exact ⟨st', h1, rel.recv.rws, rel.recv.hi, rel.recv.mx⟩
+
+/-- Over a whole history: the connection's window size stays between its initial value and the
+    larger of the initial value and the configured maximum. -/
+theorem window_size_bounded_run {s : State} (h : Reach s) (ops : List Op) (hv : ValidFrom s ops) :
+    s.conn.receiveWindowSize ≤ (run s ops).conn.receiveWindowSize ∧
+    (run s ops).conn.receiveWindowSize ≤ max s.conn.receiveWindowSize s.conn.maxReceiveWindowSize ∧
+    (run s ops).conn.maxReceiveWindowSize = s.conn.maxReceiveWindowSize := by
+  induction ops generalizing s with
+  | nil => simp [run]; omega
+  | cons op ops ih =>
+    obtain ⟨⟨a, b, c⟩, _⟩ := window_size_bounded h op hv.1
+    obtain ⟨d, e, f⟩ := ih (Reach.step op h hv.1) hv.2
+    simp only [run]
+    omega
+
+/-! ## 6. connection-level credit is returned exactly once -/
+
+/-- **credit_conserved.** In every reachable state the connection's `bytesRead` (the credit it
+    returns through MAX_DATA) is exactly the sum over the streams of bytes consumed or abandoned, and
+    no stream has consumed more than it received.  On an open connection the connection's
+    `highestReceived` is exactly the sum of the streams' highest offsets, so the returned credit
+    never exceeds what was received, and once every stream is finished (`bytesRead =
+    highestReceived` — fully read or abandoned) every received byte has been returned, once. -/
+theorem credit_conserved {s : State} (h : Reach s) :
+    s.conn.bytesRead = sumBy (·.base.bytesRead) s.streams ∧
+    (∀ st ∈ s.streams, 0 ≤ st.base.bytesRead ∧ st.base.bytesRead ≤ st.base.highestReceived) := by
+  have hi := h.inv
+  exact ⟨hi.read, fun st hst => ⟨(hi.streams st hst).br0, (hi.streams st hst).br⟩⟩
+
+theorem sumBy_le {f g : Stream → Int} {l : List Stream} (h : ∀ st ∈ l, f st ≤ g st) : sumBy f l ≤ sumBy g l := by
+  induction l with
+  | nil => simp
+  | cons a l ih =>
+    have h1 := h a (by simp)
+    have h2 := ih (fun st hst => h st (by simp [hst]))
+    simp only [sumBy_cons]; omega
+
+theorem sumBy_congr {f g : Stream → Int} {l : List Stream} (h : ∀ st ∈ l, f st = g st) : sumBy f l = sumBy g l := by
+  induction l with
+  | nil => simp
+  | cons a l ih =>
+    have h1 := h a (by simp)
+    have h2 := ih (fun st hst => h st (by simp [hst]))
+    simp only [sumBy_cons]; omega
+
+theorem credit_conserved_open {s : State} (h : ReachOk s) :
+    s.conn.highestReceived = sumBy (·.base.highestReceived) s.streams ∧
+    s.conn.bytesRead ≤ s.conn.highestReceived ∧
+    ((∀ st ∈ s.streams, st.base.bytesRead = st.base.highestReceived) → s.conn.bytesRead = s.conn.highestReceived) := by
+  have hi := h.reach.inv
+  have he : s.conn.highestReceived = sumBy (·.base.highestReceived) s.streams := h.hreq
+  refine ⟨he, ?_, ?_⟩
+  · rw [he, hi.read]; exact sumBy_le (fun st hst => (hi.streams st hst).br)
+  · intro hall; rw [he, hi.read]; exact sumBy_congr hall
+
+/-- `Abandon` credits exactly the bytes received but not yet consumed, to the stream and to the
+    connection alike; a second `Abandon` therefore credits nothing. -/
+theorem abandon_credits_unread {s : State} (h : Reach s) {id : Nat} {st : Stream} (hs : s.streams[id]? = some st) :
+    ∃ st', (step s (.abandon id)).1.streams[id]? = some st' ∧
+      st'.base.bytesRead = st.base.highestReceived ∧ st'.base.highestReceived = st.base.highestReceived ∧
+      (step s (.abandon id)).1.conn.bytesRead = s.conn.bytesRead + (st.base.highestReceived - st.base.bytesRead) := by
+  have hlt : id < s.streams.length := by
+    rcases Nat.lt_or_ge id s.streams.length with hh | hh
+    · exact hh
+    · rw [List.getElem?_eq_none hh] at hs; cases hs
+  have hbr := (h.inv.streams st (mem_of_getElem? hs)).br
+  refine ⟨(st.abandon s.conn).1, ?_, ?_, ?_, ?_⟩
+  · simp only [step, stepT, hs]; exact List.getElem?_set_self hlt
+  · simp only [Stream.abandon]; split <;> rfl
+  · simp only [Stream.abandon]; split <;> rfl
+  · simp only [step, stepT, hs, Stream.abandon, Conn.addBytesRead, Base.addBytesRead]
+    split <;> simp <;> omega
+
+/-! ## 7. no panic with the callback the connection installs -/
+
+/-- connection.go always passes a function literal as `allowWindowIncrease` (regenerated fact). -/
+theorem conn_callback_never_nil : Uquic.Gen.Flowcontrol.connCallbackNeverNil = true := rfl
+
+theorem askAllow_nopanic (g : Bool) (allow : Option Bool) (d : Int) (h : g = true ∨ allow ≠ none) :
+    (Base.askAllow g allow d).2.2 = false := by
+  unfold Base.askAllow
+  cases allow <;> simp_all
+
+theorem maybeAdjust_nopanic (c : Base) (now rtt : Int) (allow : Option Bool) :
+    (c.maybeAdjustWindowSize now rtt allow).2.2 = false := by
+  have hq := fun d => askAllow_nopanic Uquic.Gen.Flowcontrol.adjustCallbackNilGuarded allow d (Or.inl rfl)
+  unfold Base.maybeAdjustWindowSize
+  simp only []
+  repeat' split
+  all_goals (first | rfl | skip)
+  rename_i heq
+  have := congrArg (fun t => t.2.2) heq
+  simp [hq] at this
+
+theorem getWindowUpdate_nopanic (c : Base) (now rtt : Int) (allow : Option Bool) :
+    (c.getWindowUpdate now rtt allow).2.2.2 = false := by
+  have hq := maybeAdjust_nopanic c now rtt allow
+  unfold Base.getWindowUpdate
+  repeat' split
+  all_goals (first | rfl | skip)
+  rename_i heq
+  rw [heq] at hq
+  simp at hq
+
+theorem ensureMin_nopanic (c : Base) (inc now : Int) (b : Bool) :
+    (Conn.ensureMinimumWindowSize c inc now (some b)).2.2 = false := by
+  have hq := fun d => askAllow_nopanic Uquic.Gen.Flowcontrol.ensureMinCallbackNilGuarded (some b) d (Or.inr (by simp))
+  unfold Conn.ensureMinimumWindowSize
+  simp only []
+  repeat' split
+  all_goals (first | rfl | skip)
+  rename_i heq
+  have := congrArg (fun t => t.2.2) heq
+  simp [hq] at this
+
+theorem stream_getWindowUpdate_nopanic (st : Stream) (c : Base) (now rtt : Int) (b : Bool) :
+    (st.getWindowUpdate c now rtt (some b)).2.2.2.2 = false := by
+  unfold Stream.getWindowUpdate
+  simp only [getWindowUpdate_nopanic, ensureMin_nopanic]
+  repeat' split
+  all_goals (first | rfl | simp_all)
+
+/-- With a non-nil callback no operation panics (with a nil callback `EnsureMinimumWindowSize`
+    would call it unguarded, see `Uquic.Gen.Flowcontrol.ensureMinCallbackNilGuarded`). -/
+theorem no_panic {s : State} (hcb : s.cbNil = false) (op : Op) : ∀ calls, (step s op).2 ≠ .panic calls := by
+  intro calls
+  have ha : ∀ b, s.allowOf b = some b := by intro b; simp [State.allowOf, hcb]
+  cases op <;> simp only [step, stepT, ha, getWindowUpdate_nopanic, stream_getWindowUpdate_nopanic]
+  all_goals (try split)
+  all_goals (first | (simp; done) | simp_all)
+
 end Uquic.Props.C04
